@@ -59,7 +59,12 @@ func layoutPath(f, dirs string) string {
 	return f + ".json"
 }
 
-func layoutFiles(graph, dirs string) map[string]string {
+func layoutFiles(graph, dirs string) map[string]string { return layoutFilesMix(graph, dirs, false) }
+
+// layoutFilesMix: with mix, every document also declares a definition Base (whose only property has a different
+// type in every document) and a property mix = allOf[{"$ref": "#/$defs/Base"}, {...}]: the textually identical
+// reference, inside an allOf, with a different target per document.
+func layoutFilesMix(graph, dirs string, mix bool) map[string]string {
 	refs := map[string][]string{}
 	switch graph {
 	case "chain":
@@ -77,8 +82,13 @@ func layoutFiles(graph, dirs string) map[string]string {
 			rel, _ := filepath.Rel(filepath.Dir(layoutPath(f, dirs)), layoutPath(g, dirs))
 			props["to"+strings.ToUpper(g)] = map[string]any{"$ref": filepath.ToSlash(rel)}
 		}
-		s := map[string]any{"$id": "https://example.com/" + f, "type": "object", "properties": props,
-			"$defs": map[string]any{up + "Def": map[string]any{"type": "object", "properties": map[string]any{"v" + up: map[string]any{"type": "integer", "minimum": 1}}, "required": []string{"v" + up}}}}
+		defs := map[string]any{up + "Def": map[string]any{"type": "object", "properties": map[string]any{"v" + up: map[string]any{"type": "integer", "minimum": 1}}, "required": []string{"v" + up}}}
+		if mix {
+			baseType := map[string]string{"a": "integer", "b": "string", "c": "boolean", "z": "number"}[f]
+			defs["Base"] = map[string]any{"type": "object", "properties": map[string]any{"base" + up: map[string]any{"type": baseType}}, "required": []string{"base" + up}}
+			props["mix"] = map[string]any{"allOf": []any{map[string]any{"$ref": "#/$defs/Base"}, map[string]any{"type": "object", "properties": map[string]any{"m" + up: map[string]any{"type": "string"}}}}}
+		}
+		s := map[string]any{"$id": "https://example.com/" + f, "type": "object", "properties": props, "$defs": defs}
 		b, _ := json.Marshal(s)
 		out[layoutPath(f, dirs)] = string(b)
 	}
@@ -92,6 +102,10 @@ func layoutCfg(mapping, modPrefix string) work.Cfg {
 	case "own":
 		for _, f := range []string{"a", "b", "c", "z"} {
 			c.SchemaMappings = append(c.SchemaMappings, work.Mapping{SchemaID: id(f), PackageName: modPrefix + "/p" + f, OutputName: "p" + f + "/" + f + ".go"})
+		}
+	case "samebase": // different import paths ending in the same element
+		for _, f := range []string{"a", "b", "c", "z"} {
+			c.SchemaMappings = append(c.SchemaMappings, work.Mapping{SchemaID: id(f), PackageName: modPrefix + "/p" + f + "/model", OutputName: "p" + f + "/model/" + f + ".go"})
 		}
 	case "sharedsame", "shareddiff":
 		for _, f := range []string{"a", "b", "c", "z"} {
@@ -162,7 +176,7 @@ func RunLayouts(tier, rule string) int {
 	type cfgKey struct{ graph, mapping, dirs string }
 	var cfgs []cfgKey
 	for _, g := range []string{"none", "chain", "diamond", "cycle"} {
-		for _, m := range []string{"default", "own", "sharedsame", "shareddiff", "pkgonly"} {
+		for _, m := range []string{"default", "own", "samebase", "sharedsame", "shareddiff", "pkgonly"} {
 			for _, d := range []string{"flat", "sub"} {
 				cfgs = append(cfgs, cfgKey{g, m, d})
 			}
@@ -191,7 +205,7 @@ func RunLayouts(tier, rule string) int {
 					d = devSet(devs)
 					inv = "INVARIANTS EmitRun\n"
 				}
-				cfg := "SPECIFICATION Spec\nCONSTANTS\n  Files <- FilesDef\n  RefsOf <- RefsDef\n  TypesOf <- TypesDef\n  OutOf <- OutDef\n  PkgOf <- PkgDef\n  Orders <- OrdersDef\n  D = {}\n" +
+				cfg := "SPECIFICATION Spec\nCONSTANTS\n  Files <- FilesDef\n  RefsOf <- RefsDef\n  TypesOf <- TypesDef\n  OutOf <- OutDef\n  PkgOf <- PkgDef\n  Orders <- OrdersDef\n  Common <- CommonDef\n  D = {}\n" +
 					"  Devs = " + d + "\n  Tier = \"" + tier + "\"\n  Graph = \"" + c.graph + "\"\n  Mapping = \"" + c.mapping + "\"\n  Dirs = \"" + c.dirs + "\"\n  Tag = \"" + tag + "\"\n" + inv + "CHECK_DEADLOCK FALSE\n"
 				tr, err := tlc.Run(tlc.Opts{Module: "MC_C20", Cfg: cfg, Dir: filepath.Join(sc.Dir, fmt.Sprintf("tlc-l-%d-%s", i, tag)), Workers: 2, Timeout: 10 * time.Minute, HeapGB: 2})
 				if err != nil {
@@ -257,7 +271,7 @@ func RunLayouts(tier, rule string) int {
 			for _, a := range lr.Args {
 				entries = append(entries, layoutPath(a, c.dirs))
 			}
-			jobs = append(jobs, work.GenJob{ID: id, Dir: filepath.Join(sc.Dir, "in", id), Files: layoutFiles(c.graph, c.dirs), Entries: entries,
+			jobs = append(jobs, work.GenJob{ID: id, Dir: filepath.Join(sc.Dir, "in", id), Files: layoutFilesMix(c.graph, c.dirs, c.mapping == "own" || c.mapping == "samebase"), Entries: entries,
 				OutDir: filepath.Join(sc.Mod, "gen", id), Cfg: layoutCfg(c.mapping, "vscratch/gen/"+id)})
 		}
 	}
@@ -281,7 +295,13 @@ func RunLayouts(tier, rule string) int {
 			e.Obs.Outs = []obsOut{}
 		}
 	}
-	failedPk, err := sc.BuildAll("./gen/...")
+	var okJobs []string
+	for _, e := range evs {
+		if !e.Obs.Failed {
+			okJobs = append(okJobs, e.job)
+		}
+	}
+	badJobs, err := sc.BuildJobs(okJobs)
 	if err != nil {
 		return infra(prop, err)
 	}
@@ -290,11 +310,9 @@ func RunLayouts(tier, rule string) int {
 			continue
 		}
 		e.Obs.Builds = true
-		for pk, msg := range failedPk {
-			if strings.HasPrefix(pk, "gen/"+e.job+"/") || pk == "gen/"+e.job {
-				e.Obs.Builds = false
-				e.Obs.err = firstLine(msg)
-			}
+		if msg, bad := badJobs[e.job]; bad {
+			e.Obs.Builds = false
+			e.Obs.err = firstLine(msg)
 		}
 	}
 	events := make([]any, len(evs))
@@ -310,14 +328,14 @@ func RunLayouts(tier, rule string) int {
 	classes := map[string]*eqEvent{}
 	var ckeys []string
 	for _, e := range evs {
-		if e.run.Mapping != "own" || e.Obs.Failed {
+		if (e.run.Mapping != "own" && e.run.Mapping != "samebase") || e.Obs.Failed {
 			continue
 		}
 		for file, h := range e.Obs.hashes {
-			k := e.run.Graph + "/" + e.run.Dirs + "/" + file
+			k := e.run.Mapping + "/" + e.run.Graph + "/" + e.run.Dirs + "/" + file
 			c := classes[k]
 			if c == nil {
-				c = &eqEvent{Class: "layout " + e.run.Graph + "/" + e.run.Dirs + ", output " + file}
+				c = &eqEvent{Class: "layout " + e.run.Mapping + "/" + e.run.Graph + "/" + e.run.Dirs + ", output " + file}
 				classes[k] = c
 				ckeys = append(ckeys, k)
 			}
@@ -354,7 +372,7 @@ func RunLayouts(tier, rule string) int {
 			confirmed++
 			if len(vlines) < 10 {
 				rp := map[string]any{"property": prop, "kind": "multi-file-run", "graph": e.run.Graph, "mapping": e.run.Mapping, "dirs": e.run.Dirs,
-					"arguments": e.run.Args, "files": layoutFiles(e.run.Graph, e.run.Dirs), "options": layoutCfg(e.run.Mapping, "MODULE"),
+					"arguments": e.run.Args, "files": layoutFilesMix(e.run.Graph, e.run.Dirs, e.run.Mapping == "own" || e.run.Mapping == "samebase"), "options": layoutCfg(e.run.Mapping, "MODULE"),
 					"expected_by_model": e.Design, "observed": e.Obs, "error": e.Obs.err, "how_to_rerun": "bin/vcheck replay " + prop + " <this file>"}
 				b, _ := json.MarshalIndent(rp, "", " ")
 				p := filepath.Join(dir, fmt.Sprintf("seed%d-run%d.json", seed, r.L))
